@@ -173,22 +173,33 @@ theorem wrap_u64_diff (e b : Nat) : wrap .u64 ((e : Int) - (b : Int)) = ⟨.u64,
 theorem udiff_lt (e b : Nat) : udiff e b < 2^64 := by
   unfold udiff; omega
 
-def stdOk (b e sum : Nat) : Bool := decide (b ≠ 0) && decide (sum ≤ udiff e b)
+theorem le_ptr (b e : Nat) (hb : b < 2^63) (he : e < 2^63) :
+    binop .le ⟨.ptr, b⟩ ⟨.ptr, e⟩ = some (ofBool (decide (b ≤ e))) := by
+  have h1 : toInt ⟨.ptr, b⟩ = (b : Int) := toInt_mk_small .ptr b (by simpa [CTy.bits] using hb)
+  have h2 : toInt ⟨.ptr, e⟩ = (e : Int) := toInt_mk_small .ptr e (by simpa [CTy.bits] using he)
+  simp only [binop, CTy.isPtr, Bool.or_self, if_true, ptrBinop, Bool.and_self, isCmp, cmp, h1, h2]
+  simp
+
+/-- the value of the size-check condition: non-null begin, begin ≤ end (pointers compared as
+    addresses), `offset + size` (already computed in its C++ type: `sum`) at most
+    `static_cast<std::size_t>(end - begin)` -/
+def stdOk (b e sum : Nat) : Bool := decide (b ≠ 0) && decide (b ≤ e) && decide (sum ≤ udiff e b)
 
 theorem macro_eval (b e : Nat) (vo vs : CVal) (ts : CTy) (sum : Nat)
     (hb : b < 2^63) (he : e < 2^63) (hsum : binop .add vo vs = some ⟨ts, sum⟩) (hn : NonNegT ts sum) :
     (sizeCheckMacro.eval (macroEnv ⟨.ptr, b⟩ ⟨.ptr, e⟩ vo vs)).map isTrue = some (stdOk b e sum) := by
   simp only [sizeCheckMacro, macroEnv, CExpr.eval, Env.get?]
   simp only [String.reduceEq, if_true, if_false]
-  rw [hsum, sub_ptr e b hb he]
+  rw [hsum, sub_ptr e b hb he, le_ptr b e hb he]
   simp only [Option.map_some, conv_u64_diff e b hb he, wrap_u64_diff]
   rw [le_u64_right ts sum (udiff e b) hn (udiff_lt e b)]
   simp only [isTrue_mk, stdOk]
   by_cases h0 : b = 0
   · subst h0; simp [ofBool, isTrue]
   · have : (b != 0) = true := by simpa using h0
-    simp [this, h0, ofBool, isTrue]
-    by_cases hle : sum ≤ udiff e b <;> simp [hle]
+    by_cases hbe : b ≤ e
+    · by_cases hle : sum ≤ udiff e b <;> simp [this, h0, hbe, hle, ofBool, isTrue]
+    · simp [this, h0, hbe, ofBool, isTrue]
 end Sbepp.CVal
 
 namespace Sbepp.CVal
@@ -213,25 +224,24 @@ theorem udiff_gt (e b : Nat) (h : e < b) (hb : b < 2^64) : udiff e b = 2^64 - (b
     rw [hdiv]; omega
   rw [h2]; simp
 
-/-- begin ≤ end: a passing check bounds the guarded bytes by the end pointer -/
-theorem stdOk_sound (B E sum : Nat) (hBE : B ≤ E) (hE : E < 2^64) (h : stdOk B E sum = true) : B + sum ≤ E := by
+/-- a passing check bounds the guarded bytes by the end pointer (it also says begin ≤ end) -/
+theorem stdOk_sound (B E sum : Nat) (hE : E < 2^64) (h : stdOk B E sum = true) : B ≤ E ∧ B + sum ≤ E := by
   simp only [stdOk, Bool.and_eq_true, decide_eq_true_eq] at h
-  rw [udiff_le E B hBE hE] at h
+  rw [udiff_le E B h.1.2 hE] at h
   omega
 
-/-- begin ≤ end, non-null: guarded bytes inside ⇒ the check passes -/
+/-- non-null begin ≤ end: guarded bytes inside ⇒ the check passes -/
 theorem stdOk_complete (B E sum : Nat) (hB : 0 < B) (hBE : B ≤ E) (hE : E < 2^64) (h : B + sum ≤ E) :
     stdOk B E sum = true := by
   simp only [stdOk, Bool.and_eq_true, decide_eq_true_eq]
   rw [udiff_le E B hBE hE]
   omega
 
-/-- begin > end: the pointer difference is negative, its conversion to `std::size_t` is at least
-    2^63 and the check passes for every realistic size -/
-theorem stdOk_past_end (B E sum : Nat) (hEB : E < B) (hB : B < 2^63) (hs : sum ≤ 2^63) : stdOk B E sum = true := by
-  simp only [stdOk, Bool.and_eq_true, decide_eq_true_eq]
-  rw [udiff_gt E B hEB (by omega)]
-  omega
+/-- begin > end: the check fails whatever offset and size are -/
+theorem stdOk_past_end (B E sum : Nat) (hEB : E < B) : stdOk B E sum = false := by
+  simp only [stdOk]
+  have : ¬ B ≤ E := by omega
+  simp [this]
 
 end Sbepp.CVal
 
@@ -271,26 +281,26 @@ theorem staticView_check (c : Ctx) (b off : Nat) (hb : c.base + b < 2^63) (hn : 
 
 /-- the three `operator()(get_header_tag)` sites have the same shape: `(begin, end, 0, size_bytes(header))` -/
 theorem header_check (c : Ctx) (site : Site) (b hdr : Nat)
-    (hsite : site.sizeCheck? 0 = some (.var "begin", .var "end", .lit .i32 0, .var "size_bytes_header",
-        (.bin .land (.var "begin") (.bin .le (.bin .add (.lit .i32 0) (.var "size_bytes_header"))
-          (.cast .u64 (.bin .sub (.var "end") (.var "begin")))))))
+    (hsite : (site.sizeCheck? 0).map (fun t => (t.1, t.2.1, t.2.2.1, t.2.2.2.1)) =
+        some (.var "begin", .var "end", .lit .i32 0, .var "size_bytes_header"))
     (hb : c.base + b < 2^63) (hn : c.base + c.n < 2^63) (hh : hdr < 2^64) :
     evalSizeCheck site 0 (c.be b ++ [("size_bytes_header", u64 hdr)])
       = some (stdOk (c.base + b) (c.base + c.n) ((0 + hdr) % 2^64)) := by
-  rw [evalSizeCheck_of site 0 _ _ _ _ _ _ (c.p b) c.endp ⟨.i32, 0⟩ (u64 hdr) hsite rfl rfl rfl rfl]
+  match h : site.sizeCheck? 0, hsite with
+  | some (eb, ee, eo, es, x), hsite =>
+  simp only [Option.map_some, Option.some.injEq, Prod.mk.injEq] at hsite
+  obtain ⟨rfl, rfl, rfl, rfl⟩ := hsite
+  rw [evalSizeCheck_of site 0 _ _ _ _ _ _ (c.p b) c.endp ⟨.i32, 0⟩ (u64 hdr) h rfl rfl rfl rfl]
   have h0 : (0 + hdr) % 2^64 = hdr := by rw [Nat.zero_add]; exact Nat.mod_eq_of_lt hh
   rw [h0]
   exact macro_eval _ _ _ _ CTy.u64.promote _ hb hn (add_zero_left .u64 hdr (nn_u64 hdr hh)) (nn_u64 hdr hh)
 
-theorem msgHeader_site : message_base_call__get_header_tag.sizeCheck? 0 = some (.var "begin", .var "end", .lit .i32 0, .var "size_bytes_header",
-        (.bin .land (.var "begin") (.bin .le (.bin .add (.lit .i32 0) (.var "size_bytes_header"))
-          (.cast .u64 (.bin .sub (.var "end") (.var "begin")))))) := rfl
-theorem flatHeader_site : flat_group_base_call__get_header_tag.sizeCheck? 0 = some (.var "begin", .var "end", .lit .i32 0, .var "size_bytes_header",
-        (.bin .land (.var "begin") (.bin .le (.bin .add (.lit .i32 0) (.var "size_bytes_header"))
-          (.cast .u64 (.bin .sub (.var "end") (.var "begin")))))) := rfl
-theorem nestedHeader_site : nested_group_base_call__get_header_tag.sizeCheck? 0 = some (.var "begin", .var "end", .lit .i32 0, .var "size_bytes_header",
-        (.bin .land (.var "begin") (.bin .le (.bin .add (.lit .i32 0) (.var "size_bytes_header"))
-          (.cast .u64 (.bin .sub (.var "end") (.var "begin")))))) := rfl
+theorem msgHeader_site : (message_base_call__get_header_tag.sizeCheck? 0).map (fun t => (t.1, t.2.1, t.2.2.1, t.2.2.2.1)) =
+    some (.var "begin", .var "end", .lit .i32 0, .var "size_bytes_header") := rfl
+theorem flatHeader_site : (flat_group_base_call__get_header_tag.sizeCheck? 0).map (fun t => (t.1, t.2.1, t.2.2.1, t.2.2.2.1)) =
+    some (.var "begin", .var "end", .lit .i32 0, .var "size_bytes_header") := rfl
+theorem nestedHeader_site : (nested_group_base_call__get_header_tag.sizeCheck? 0).map (fun t => (t.1, t.2.1, t.2.2.1, t.2.2.2.1)) =
+    some (.var "begin", .var "end", .lit .i32 0, .var "size_bytes_header") := rfl
 
 /-- a header member of `w` bytes holds a value of its unsigned C++ type -/
 def CanonV (w x : Nat) : Prop := x < 2 ^ (uTy w).bits
@@ -453,11 +463,12 @@ theorem covered_append (a : List Ev) : ∀ (seen : List (Nat × Nat × Nat)) (b 
     | assert ok => simp only [List.cons_append, Covered] at ha ⊢; exact ih _ _ ha hb
     | touch lo len w => simp only [List.cons_append, Covered] at ha ⊢; exact ⟨ha.1, ih _ _ ha.2 hb⟩
 
-/-- every check is made on a view that begins inside the buffer (`begin ≤ end`) -/
-def ViewsInside (c : Ctx) : List Ev → Prop
+/-- every pointer a check is made on is representable (address below 2^63): no pointer arithmetic of
+    the call overflowed.  Only 64-bit header values can violate this. -/
+def PtrsRepresentable (c : Ctx) : List Ev → Prop
   | [] => True
-  | .check b _ _ _ :: r => b ≤ c.n ∧ ViewsInside c r
-  | _ :: r => ViewsInside c r
+  | .check b _ _ _ :: r => c.base + b < 2^63 ∧ PtrsRepresentable c r
+  | _ :: r => PtrsRepresentable c r
 
 /-- `offset + size` does not wrap around in `std::size_t` -/
 def NoWrap : List Ev → Prop
@@ -465,10 +476,10 @@ def NoWrap : List Ev → Prop
   | .check _ off size _ :: r => off + size < 2^64 ∧ NoWrap r
   | _ :: r => NoWrap r
 
-theorem viewsInside_append (c : Ctx) (a b : List Ev) : ViewsInside c (a ++ b) ↔ ViewsInside c a ∧ ViewsInside c b := by
+theorem ptrsRepresentable_append (c : Ctx) (a b : List Ev) : PtrsRepresentable c (a ++ b) ↔ PtrsRepresentable c a ∧ PtrsRepresentable c b := by
   induction a with
-  | nil => simp [ViewsInside]
-  | cons e r ih => cases e <;> simp only [List.cons_append, ViewsInside, ih, and_assoc]
+  | nil => simp [PtrsRepresentable]
+  | cons e r ih => cases e <;> simp only [List.cons_append, PtrsRepresentable, ih, and_assoc]
 
 theorem noWrap_append (a b : List Ev) : NoWrap (a ++ b) ↔ NoWrap a ∧ NoWrap b := by
   induction a with
@@ -484,21 +495,20 @@ theorem inside_of_covered (n : Nat) (seen : List (Nat × Nat × Nat)) (lo len : 
     simp only [Bool.or_eq_true, beq_iff_eq, decide_eq_true_eq]
     right; omega
 
-/-- a passing, faithful check on a view inside the buffer bounds its guarded bytes by `n` -/
+/-- a passing, faithful check bounds its guarded bytes by `n` (and its view begins inside) -/
 theorem check_bound (c : Ctx) (hwf : c.WF) (b off size : Nat) (ok : Option Bool)
     (hf : c.base + b < 2^63 → off + size < 2^64 → ok = some (stdOk (c.base + b) (c.base + c.n) (off + size)))
-    (hv : b ≤ c.n) (hnw : off + size < 2^64) (hok : ok = some true) : b + off + size ≤ c.n := by
-  have h63 : c.base + b < 2^63 := by have := hwf.2; omega
-  have h := hf h63 hnw
+    (hv : c.base + b < 2^63) (hnw : off + size < 2^64) (hok : ok = some true) : b + off + size ≤ c.n := by
+  have h := hf hv hnw
   rw [hok] at h
   have h' : stdOk (c.base + b) (c.base + c.n) (off + size) = true := by
     injection h with h; exact h.symm
-  have := stdOk_sound _ _ _ (by omega) (by have := hwf.2; omega) h'
+  have := stdOk_sound _ _ _ (by have := hwf.2; omega) h'
   omega
 
 /-- SOUNDNESS on event lists: if all checks pass, every touched byte lies inside `[0, n)` -/
 theorem covered_sound (c : Ctx) (hwf : c.WF) (evs : List Ev) : ∀ (seen : List (Nat × Nat × Nat)),
-    (∀ t ∈ seen, t.1 + t.2.1 + t.2.2 ≤ c.n) → Covered seen evs → Faithful c evs → ViewsInside c evs →
+    (∀ t ∈ seen, t.1 + t.2.1 + t.2.2 ≤ c.n) → Covered seen evs → Faithful c evs → PtrsRepresentable c evs →
     NoWrap evs → guard evs = true → allInside c.n (touches evs) = true := by
   induction evs with
   | nil => intros; rfl
@@ -506,7 +516,7 @@ theorem covered_sound (c : Ctx) (hwf : c.WF) (evs : List Ev) : ∀ (seen : List 
     intro seen hseen hc hf hv hnw hg
     cases e with
     | check b off size ok =>
-      simp only [Covered, Faithful, ViewsInside, NoWrap] at hc hf hv hnw
+      simp only [Covered, Faithful, PtrsRepresentable, NoWrap] at hc hf hv hnw
       simp only [guard, List.all_cons, Ev.passes, Bool.and_eq_true, beq_iff_eq] at hg
       have hb := check_bound c hwf b off size ok hf.1 hv.1 hnw.1 hg.1
       simp only [touches]
@@ -514,12 +524,12 @@ theorem covered_sound (c : Ctx) (hwf : c.WF) (evs : List Ev) : ∀ (seen : List 
                      · subst h; exact hb
                      · exact hseen t h) hc hf.2 hv.2 hnw.2 (by simpa [guard] using hg.2)
     | assert ok =>
-      simp only [Covered, Faithful, ViewsInside, NoWrap] at hc hf hv hnw
+      simp only [Covered, Faithful, PtrsRepresentable, NoWrap] at hc hf hv hnw
       simp only [guard, List.all_cons, Bool.and_eq_true] at hg
       simp only [touches]
       exact ih _ hseen hc hf hv hnw (by simpa [guard] using hg.2)
     | touch lo len w =>
-      simp only [Covered, Faithful, ViewsInside, NoWrap] at hc hf hv hnw
+      simp only [Covered, Faithful, PtrsRepresentable, NoWrap] at hc hf hv hnw
       simp only [guard, List.all_cons, Bool.and_eq_true] at hg
       simp only [touches, allInside, List.all_cons, Bool.and_eq_true]
       exact ⟨inside_of_covered c.n seen lo len hseen hc.1,
@@ -528,7 +538,7 @@ theorem covered_sound (c : Ctx) (hwf : c.WF) (evs : List Ev) : ∀ (seen : List 
 /-- NO SILENT ACCESS on event lists: whatever the outcome, no byte at or beyond `n` is touched
     before the first failed check -/
 theorem covered_no_fault (c : Ctx) (hwf : c.WF) (evs : List Ev) : ∀ (seen : List (Nat × Nat × Nat)) (i : Nat),
-    (∀ t ∈ seen, t.1 + t.2.1 + t.2.2 ≤ c.n) → Covered seen evs → Faithful c evs → ViewsInside c evs →
+    (∀ t ∈ seen, t.1 + t.2.1 + t.2.2 ≤ c.n) → Covered seen evs → Faithful c evs → PtrsRepresentable c evs →
     NoWrap evs → ∀ k, run c.n evs i ≠ .fault k := by
   induction evs with
   | nil => intro _ _ _ _ _ _ _ k h; simp [run] at h
@@ -536,7 +546,7 @@ theorem covered_no_fault (c : Ctx) (hwf : c.WF) (evs : List Ev) : ∀ (seen : Li
     intro seen i hseen hc hf hv hnw k
     cases e with
     | check b off size ok =>
-      simp only [Covered, Faithful, ViewsInside, NoWrap] at hc hf hv hnw
+      simp only [Covered, Faithful, PtrsRepresentable, NoWrap] at hc hf hv hnw
       match ok, hf with
       | some true, hf =>
         simp only [run]
@@ -547,13 +557,13 @@ theorem covered_no_fault (c : Ctx) (hwf : c.WF) (evs : List Ev) : ∀ (seen : Li
       | some false, _ => simp [run]
       | none, _ => simp [run]
     | assert ok =>
-      simp only [Covered, Faithful, ViewsInside, NoWrap] at hc hf hv hnw
+      simp only [Covered, Faithful, PtrsRepresentable, NoWrap] at hc hf hv hnw
       match ok with
       | some true => simp only [run]; exact ih _ _ hseen hc hf hv hnw k
       | some false => simp [run]
       | none => simp [run]
     | touch lo len w =>
-      simp only [Covered, Faithful, ViewsInside, NoWrap] at hc hf hv hnw
+      simp only [Covered, Faithful, PtrsRepresentable, NoWrap] at hc hf hv hnw
       simp only [run, inside_of_covered c.n seen lo len hseen hc.1, if_true]
       exact ih _ _ hseen hc.2 hf hv hnw k
 
@@ -590,9 +600,8 @@ theorem staticView_good (c : Ctx) (hn : c.base + c.n < 2^63) (b off : Nat) : Goo
   rw [staticView_check c b off h63 hn (by omega), mod_of_lt64 hnw]
 
 theorem headerCheck_good (c : Ctx) (hn : c.base + c.n < 2^63) (site : Site) (b hdr : Nat)
-    (hsite : site.sizeCheck? 0 = some (.var "begin", .var "end", .lit .i32 0, .var "size_bytes_header",
-        (.bin .land (.var "begin") (.bin .le (.bin .add (.lit .i32 0) (.var "size_bytes_header"))
-          (.cast .u64 (.bin .sub (.var "end") (.var "begin"))))))) :
+    (hsite : (site.sizeCheck? 0).map (fun t => (t.1, t.2.1, t.2.2.1, t.2.2.2.1)) =
+        some (.var "begin", .var "end", .lit .i32 0, .var "size_bytes_header")) :
     Good c (headerCheck c site b hdr) := by
   refine ⟨⟨fun h63 hnw => ?_, trivial⟩, trivial⟩
   rw [header_check c site b hdr hsite h63 hn (by omega), mod_of_lt64 hnw]
@@ -959,15 +968,15 @@ namespace Sbepp.Rt.Guards
 instance (c : Ctx) : Decidable c.WF := by unfold Ctx.WF; infer_instance
 instance (bs : List Nat) : Decidable (IsBytes bs) := by unfold IsBytes; infer_instance
 
-def decViewsInside (c : Ctx) : (evs : List Ev) → Decidable (ViewsInside c evs)
+def decPtrsRepresentable (c : Ctx) : (evs : List Ev) → Decidable (PtrsRepresentable c evs)
   | [] => isTrue trivial
   | .check b _ _ _ :: r =>
-    match decViewsInside c r with
-    | isTrue h => if hb : b ≤ c.n then isTrue ⟨hb, h⟩ else isFalse (fun x => hb x.1)
+    match decPtrsRepresentable c r with
+    | isTrue h => if hb : c.base + b < 2^63 then isTrue ⟨hb, h⟩ else isFalse (fun x => hb x.1)
     | isFalse h => isFalse (fun x => h x.2)
-  | .assert _ :: r => decViewsInside c r
-  | .touch _ _ _ :: r => decViewsInside c r
-instance (c : Ctx) (evs : List Ev) : Decidable (ViewsInside c evs) := decViewsInside c evs
+  | .assert _ :: r => decPtrsRepresentable c r
+  | .touch _ _ _ :: r => decPtrsRepresentable c r
+instance (c : Ctx) (evs : List Ev) : Decidable (PtrsRepresentable c evs) := decPtrsRepresentable c evs
 
 def decNoWrap : (evs : List Ev) → Decidable (NoWrap evs)
   | [] => isTrue trivial
